@@ -10,6 +10,10 @@
      conc C <call>* C <call>* ... S <i>[:<j>]*
                                       -> DONE|RUNNING ## results of client 0 (;;-separated) ## ... ## trace
                                          (interleaved semantics; i = client, j = torn view of an observing operation)
+     universe <content>* / ids <id>*  -> ok   (the finite universe the boolean statements range over)
+     holds05                          -> c05_holds_on on the current state and ids
+     putholds05 <id> <tm> <chunk>*    -> c05_put_holds_on (the Put is not applied)
+     (putf appends " | holds=" and c12_holds_on of the state before, the plan and the Put)
      get <id>                         -> NF | F out size tm   (numbers: 0 | +<binary> | -<binary>)
      getbytes <id>                    -> NF | F data out size tm
      getfile <id>                     -> NF | F name out size tm
@@ -48,6 +52,8 @@ let arg (s : string) : byte list =
     | _ -> failwith "bad ref"
   end else bytes_of_hex s
 
+let universe : byte list list ref = ref []
+let idlist : byte list list ref = ref []
 let store : files ref = ref no_files
 let known : (string * string, unit) Hashtbl.t = Hashtbl.create 64
 let path_of kind idhex =
@@ -69,6 +75,11 @@ let handle = function
   | ["hash"; c; v] -> Hashtbl.replace table (string_of_bytes (arg c)) (bytes_of_hex v); "ok"
   | ["def"; n; c] -> Hashtbl.replace defs n (Array.of_list (bytes_of_hex c)); "ok"
   | ["reset"] -> store := no_files; Hashtbl.reset known; "ok"
+  | "universe" :: cs -> universe := List.map arg cs; "ok"
+  | "ids" :: is -> idlist := List.map bytes_of_hex is; "ok"
+  | ["holds05"] -> string_of_bool (c05_holds_on h !store !idlist)
+  | "putholds05" :: id :: tm :: chunks ->
+      string_of_bool (c05_put_holds_on h !store (bytes_of_hex id) (List.map arg chunks) (z_of_int (int_of_string tm)))
   | "put" :: id :: tm :: seek1 :: ok1 :: pass1 :: seek2 :: chunks ->
       let rd = { rd_seek1 = bool_of seek1; rd_pass1 = arg pass1; rd_ok1 = bool_of ok1;
                  rd_seek2 = bool_of seek2; rd_pass2 = List.map arg chunks } in
@@ -90,6 +101,7 @@ let handle = function
       let b = if int_of_string k < 0 then None else Some (nat_of_int (int_of_string k), fk) in
       let p = put_prog h (bytes_of_hex id) rd (z_of_int (int_of_string tm)) in
       let tr = trace_f b p !store in
+      let holds = c12_holds_on h !universe !idlist !store b (bytes_of_hex id) rd (z_of_int (int_of_string tm)) in
       let ((fs', oc), _) = run_f b p !store in
       store := fs';
       let kind_of = function IdxP _ -> "a" | DatP o -> ignore (path_of "d" (hex_of_bytes o)); "d" in
@@ -108,7 +120,7 @@ let handle = function
         | Done PutErrEarly -> "DONE PUTERR"
         | Done (PutFailed (out, size)) -> Printf.sprintf "DONE PUTFAILED %s %d" (hex_of_bytes out) (int_of_nat size)
         | Done (PutOk (out, size)) -> Printf.sprintf "DONE PUTOK %s %d" (hex_of_bytes out) (int_of_nat size) in
-      res ^ " | " ^ String.concat " " (List.map show_op tr)
+      res ^ " | " ^ String.concat " " (List.map show_op tr) ^ " | holds=" ^ string_of_bool holds
   | "conc" :: rest ->
       (* conc C <call>* C <call>* ... S <i>[:<j>]*   with <call> = put <id> <tm> <n> <chunk>^n | get|getbytes|getfile <id> *)
       let rec calls acc = function
